@@ -48,12 +48,17 @@ def make_target():
 
         @P.expose
         def fail(self):
-            raise ZeroDivisionError("fail")
+            x = ZeroDivisionError("fail", 7)
+            x.code = 403
+            x.detail = {"k": [1, 2]}
+            raise x
 
         @P.expose
         def failafter(self, k):
             self.j.append(k)
-            raise ZeroDivisionError("failafter")
+            x = ZeroDivisionError("failafter")
+            x.after = k
+            raise x
 
         def unexposed(self):
             self.j.append(-1)
@@ -100,6 +105,13 @@ def exc_name(x):
     return "ValueError" if isinstance(x, ZeroDivisionError) else ("AttributeError" if isinstance(x, AttributeError) else "other:" + type(x).__name__)
 
 
+def fingerprint(x):
+    """class, args and custom attributes of a caught exception, as text"""
+    attrs = {k: v for k, v in vars(x).items() if k != "_pyroTraceback"}
+    return "%s.%s|%s|%s" % (type(x).__module__, type(x).__name__, json.dumps(list(x.args), sort_keys=True, default=repr),
+                            json.dumps(attrs, sort_keys=True, default=repr)) if isinstance(x, ZeroDivisionError) else type(x).__name__
+
+
 def sequential(p, calls):
     res = []
     for i, c in enumerate(calls):
@@ -108,21 +120,21 @@ def sequential(p, calls):
         except (S.Hang, S.SchedAbort):
             raise
         except Exception as x:
-            return {"results": res, "exc": exc_name(x), "pos": i + 1}
-    return {"results": res, "exc": "", "pos": 0}
+            return {"results": res, "exc": exc_name(x), "pos": i + 1, "fp": fingerprint(x)}
+    return {"results": res, "exc": "", "pos": 0, "fp": ""}
 
 
 def submit_batch(P, bp, calls, oneway):
     """queues calls on BatchProxy bp and submits; returns the observation record"""
     for c in calls:
         invoke_on(bp, c)
-    out = {"results": [], "exc": "", "where": "", "pos": 0, "ret_none": False}
+    out = {"results": [], "exc": "", "where": "", "pos": 0, "ret_none": False, "fp": ""}
     try:
         gen = bp(oneway=oneway)
     except (S.Hang, S.SchedAbort):
         raise
     except Exception as x:
-        out.update(exc=exc_name(x), where="submit")
+        out.update(exc=exc_name(x), where="submit", fp=fingerprint(x))
         return out
     if oneway:
         out["ret_none"] = gen is None
@@ -133,7 +145,7 @@ def submit_batch(P, bp, calls, oneway):
     except (S.Hang, S.SchedAbort):
         raise
     except Exception as x:
-        out.update(exc=exc_name(x), where="position", pos=len(out["results"]) + 1)
+        out.update(exc=exc_name(x), where="position", pos=len(out["results"]) + 1, fp=fingerprint(x))
     return out
 
 
@@ -190,8 +202,8 @@ def run_cases(cases, servertype):
                 q._pyroRelease()
             except S.Hang:
                 tr["hang"] = True
-                tr.setdefault("seq", {"results": [], "exc": "", "pos": 0, "journal": []})
-                tr.setdefault("bat", {"results": [], "exc": "", "where": "", "pos": 0, "ret_none": False, "journal": []})
+                tr.setdefault("seq", {"results": [], "exc": "", "pos": 0, "journal": [], "fp": ""})
+                tr.setdefault("bat", {"results": [], "exc": "", "where": "", "pos": 0, "ret_none": False, "journal": [], "fp": ""})
                 tr["seq"].setdefault("journal", [])
                 if tr["bat"].get("journal") is None:
                     tr["bat"]["journal"] = []
